@@ -58,7 +58,7 @@ if not suite_ok:
         args = t.split()
         passed_alone = False
         for attempt in range(4):
-            rc2, out2 = sh(suite_cmd[:-4] + ["cargo", "test", "--offline"] + args) if suite_cmd[0] != "cargo" else sh(["cargo", "test", "--offline"] + args)
+            rc2, out2 = sh(suite_cmd[:suite_cmd.index("cargo")] + ["cargo", "test", "--offline"] + args)
             if rc2 == 0:
                 passed_alone = True
                 log["suite_with_patch"].setdefault("reruns", {})[t] = "passed alone on attempt %d" % (attempt + 1)
